@@ -395,7 +395,7 @@ func c12Verify(ct *c12Target, tgt [20]byte, encV, k, sig []byte, seq int64, salt
 // ---- C12c: client side, getput.Get against simulated nodes -------------------------------------------
 
 type C12Node struct {
-	IDCpl int // shared prefix length of the node's ID with the target (structured closeness)
+	IDCpl  int // shared prefix length of the node's ID with the target (structured closeness)
 	IDTail kit.Hex
 	// Reply: genuine | forged-value | other-key | stale | no-v | no-k | no-sig | no-seq | no-token | int-token | silent | error | plain
 	Reply string
@@ -440,7 +440,9 @@ func genC12c(t *rapid.T) C12cSc {
 	return sc
 }
 
-func c12NodeAddr(i int) *net.UDPAddr { return &net.UDPAddr{IP: net.IP{23, 1, byte(i / 200), byte(1 + i%200)}, Port: 2000 + i} }
+func c12NodeAddr(i int) *net.UDPAddr {
+	return &net.UDPAddr{IP: net.IP{23, 1, byte(i / 200), byte(1 + i%200)}, Port: 2000 + i}
+}
 
 func runC12c(sc C12cSc, c *kit.Case) *kit.Violation {
 	key := b44Key(31)
